@@ -56,8 +56,12 @@ def parse_cardinality(val):
         max_val = parsed_vals[1].strip()
 
         # str.isdigit also accepts characters int() does not convert (e.g. superscripts)
-        min_int = min_val.isdecimal() and int(min_val) >= 0
-        max_int = max_val.isdecimal() and int(max_val) >= 0
+        # and int() refuses numbers of several thousand digits.
+        try:
+            min_int = min_val.isdecimal() and int(min_val) >= 0
+            max_int = max_val.isdecimal() and int(max_val) >= 0
+        except ValueError:
+            return None
 
         if min_int and max_int and int(max_val) >= int(min_val):
             return int(min_val), int(max_val)
